@@ -127,7 +127,7 @@ def install(E):
             nb = Buf(buf.base, buf.off, buf.len + n, ncap)
         E.store(bref, nb)
         E.store(sref, sock.upd(rpos=sock.rpos + n))
-        E.events.append(('read', n))
+        E.events.append(('read', n, ln))       # ln = bytes already held by the buffer that is read into
         return ready(ok(n))
 
     # ------------------------------------------------------------------ writes / shutdown
